@@ -136,10 +136,13 @@ type hop struct {
 
 // hops lists the edges that leave node `from` in the pattern's direction (left to right). An undirected step matches
 // an edge in either orientation; a self loop matches once.
-func (e *Evaluator) hops(from int64, dir graph.Direction) []hop {
+func (e *Evaluator) hops(from int64, dir graph.Direction, fixed bool) []hop {
 	var out []hop
 	if dir == graph.DirectionOutbound || dir == graph.DirectionBoth {
 		for _, ed := range e.out[from] {
+			if fixed && dir == graph.DirectionBoth && ed.Start == ed.End && e.Dev.UndirectedSkipsSelfLoops {
+				continue
+			}
 			out = append(out, hop{ed, ed.End})
 		}
 	}
@@ -211,7 +214,7 @@ func (e *Evaluator) matchElements(elems []*cypher.PatternElement, env Env, used 
 					boundEdge = &r.ID
 				}
 			}
-			for _, h := range e.hops(at, rp.Direction) {
+			for _, h := range e.hops(at, rp.Direction, true) {
 				if stop {
 					return nil
 				}
@@ -274,7 +277,7 @@ func (e *Evaluator) matchElements(elems []*cypher.PatternElement, env Env, used 
 			if depth >= max {
 				return nil
 			}
-			for _, h := range e.hops(cur, rp.Direction) {
+			for _, h := range e.hops(cur, rp.Direction, false) {
 				if stop {
 					return nil
 				}
